@@ -39,7 +39,7 @@ CLASSES = ["Rectangle", "Circle", "Polygon", "ShapeGroup", "InitialState", "KSSt
            "EnvironmentObstacle", "StopLine", "Lanelet", "TrafficSign", "TrafficLight", "LaneletNetwork", "Scenario",
            "GoalRegion", "PlanningProblem", "PlanningProblemSet", "PlanningProblemsWithCommonGoal", "NetworkWithPositionlessSignAndLight", "NetworkSharedArrays",
            "IntDtype",
-           "LaneletWithPointlessStopLine"]
+           "LaneletWithPointlessStopLine", "ObstacleWithUncertainRegionTrajectory"]
 
 
 def angle_pool(rng):
@@ -106,6 +106,23 @@ def make(name, G, rng):
         if rng.random() < 0.25 and isinstance(o.initial_state.position, np.ndarray):
             o.initial_state = o.initial_state.translate_rotate(-np.asarray(o.initial_state.position, dtype=float), 0.0)
         return o
+    if name == "ObstacleWithUncertainRegionTrajectory":
+        # predicted states whose position is a region that is NOT symmetric about the middle of its bounding box (a
+        # triangle), with an exact heading: the occupancy is a box in the heading frame around region and shape
+        from commonroad.geometry.shape import Polygon, Rectangle
+        from commonroad.prediction.prediction import TrajectoryPrediction
+        from commonroad.scenario.obstacle import DynamicObstacle, ObstacleType
+        from commonroad.scenario.trajectory import Trajectory
+        states = []
+        for k in range(3):
+            p = np.asarray(G.pos(), dtype=float)
+            tri = Polygon(np.array([p, p + np.array([rng.uniform(2, 5), 0.0]), p + np.array([0.0, rng.uniform(1, 4)])]))
+            states.append(st.KSState(time_step=1 + k, position=tri, orientation=rng.choice([0.7, -2.0, 1.5, 3.0]),
+                                     velocity=2.0, steering_angle=0.0))
+        shape = Rectangle(4.0, 1.8)
+        return DynamicObstacle(9, ObstacleType.CAR, shape, st.InitialState(
+            time_step=0, position=np.asarray(G.pos(), dtype=float), orientation=0.2, velocity=2.0),
+            TrajectoryPrediction(Trajectory(1, states), shape))
     if name == "PhantomObstacle":
         return G.phantom_obstacle(7)
     if name == "EnvironmentObstacle":
